@@ -39,7 +39,8 @@ func genCase(t *rapid.T) Case {
 	c.Cfg = gen.GenOutCfg(t, nil, nil)
 	c.Cmds = gen.GenStream(t, c.Cfg, gen.StreamOpts{MaxCmds: 40})
 	c.Sched = gen.GenSchedule(t, c.Cfg, true)
-	if rapid.IntRange(0, 4).Draw(t, "pingIdle") == 0 {
+	if rapid.IntRange(0, 4).Draw(t, "pingIdle") == 0 || (len(c.Cfg.DbBlacklist) > 0 && rapid.Bool().Draw(t, "pingIdleInBlacklistedDb")) {
+		// (with a database blacklist: keep-alives also arrive while the source stands in a blacklisted database)
 		// an idle master: keep-alive PINGs surrounded by idle time, in front of SELECT / MULTI
 		c.Cmds, c.Sched = gen.PingIdle(t, c.Cfg, c.Cmds)
 	}
